@@ -318,6 +318,8 @@ pub enum Obs {
     Ok(String),
     Err { msg: String, span: Option<(usize, usize)>, item: (usize, usize), value: Option<(usize, usize)> },
     Panic(String),
+    /// two entry points of the same conversion disagree
+    Inconsistent(String),
     /// the source text is not an attribute syn accepts (generator problem, not a verdict)
     NoParse(String),
     /// grouped context asked for an item that has no `= value` part
@@ -357,12 +359,19 @@ fn run<T: Target>(form: &str, ctx: Ctx) -> Obs {
     };
     let r = catch(std::panic::AssertUnwindSafe(|| {
         let meta = &di.attrs[0].meta;
+        let mut direct_lit: Option<syn::Lit> = None;
+        let mut note_lit = |m: &syn::Meta| {
+            if let syn::Meta::NameValue(syn::MetaNameValue { value: syn::Expr::Lit(l), .. }) = m {
+                direct_lit = Some(l.lit.clone());
+            }
+        };
         let (res, item_span, value_span) = match ctx {
             Ctx::Lone => {
                 let vs = match meta {
                     syn::Meta::NameValue(nv) => vrt::spans::cols(nv.value.span()),
                     _ => None,
                 };
+                note_lit(meta);
                 (T::from_meta(meta), vrt::spans::cols(meta.span()), vs)
             }
             _ => {
@@ -376,12 +385,26 @@ fn run<T: Target>(form: &str, ctx: Ctx) -> Obs {
                     darling_core::ast::NestedMeta::Meta(syn::Meta::NameValue(nv)) => vrt::spans::cols(nv.value.span()),
                     _ => None,
                 };
+                if let darling_core::ast::NestedMeta::Meta(m) = it {
+                    note_lit(m);
+                }
                 (T::from_nested_meta(it), vrt::spans::cols(it.span()), vs)
             }
         };
         match res {
             Ok(v) => Obs::Ok(v.canon()),
-            Err(e) => Obs::Err { msg: e.to_string(), span: e.explicit_span().and_then(vrt::spans::cols), item: item_span.unwrap_or((0, 0)), value: value_span },
+            Err(e) => {
+                // the literal handed straight to the literal hook (what a wrapper such as
+                // Override or an array element does): refused there too, with a span
+                if let Some(lit) = &direct_lit {
+                    match T::from_value(lit) {
+                        Ok(v) => return Obs::Inconsistent(format!("from_meta refuses the item but from_value accepts its literal as {}", v.canon())),
+                        Err(d) if !d.has_span() => return Obs::Inconsistent(format!("from_value refuses the literal without a span (`{d}`)")),
+                        Err(_) => {}
+                    }
+                }
+                Obs::Err { msg: e.to_string(), span: e.explicit_span().and_then(vrt::spans::cols), item: item_span.unwrap_or((0, 0)), value: value_span }
+            }
         }
     }));
     vrt::spans::reset();
@@ -540,6 +563,7 @@ pub fn check_case(ti: &TargetInfo, lit: &Lit, ctx: Ctx, t: &mut Tally) {
             bad(format!("machinery: generated attribute does not parse: {e}"), t);
         }
         (Obs::Panic(p), _) => bad(format!("panicked: {p}"), t),
+        (Obs::Inconsistent(m), _) => bad(m.clone(), t),
         (Obs::Ok(v), Some(w)) => {
             t.hit("accepted");
             if v != w {
